@@ -313,3 +313,4 @@ _patch('C02', 'level_text', 'Compiler::add_capture returns the position', 'Compi
 _patch('C06', 'level_note', 'A-shape', 'A-shape (discharged at the source for while / if: compilerd unit, Compiler::while_ and Compiler::if_ emit every label they jump to exactly once, exit jumps forward, Loop backward)')
 _patch('C01', 'level_text', 'Unbounded proof', 'The compile scheme of the control flow and operators (compilerd / forc / funcc units, stub-and-log extraction of the real Compiler::binary / unary / ternary / if_ / while_ / for_ / function): operands in source order with the instruction of their operator, and / or jumping forward over the right operand, exactly one ternary or if branch, while and for loops with the condition (the iterator step) at the start label, a forward exit and a backward Loop, an expression-bodied function returning its value. Unbounded proof')
 _patch('C20', 'level_text', 'Complete (all usize lengths):', 'The native-call boundary keeps the temporary-root stack at its entry height on every path, including natives that fail through a `?` past their own pop_roots (ncall unit, Vm::call_native / release_native_roots; D34 found and fixed: such natives leaked roots without bound). Complete (all usize lengths):')
+_patch('C13', 'level_note', 'A-slot', 'A-slot (the part "the cache of module m is at index m.id()" is now an obligation: cacheidx unit, D35 found and fixed)')
